@@ -79,8 +79,16 @@ ALL = {
    text="Exploration over all component positions. For 20 compound types x {f32,f64}: abs_diff_eq/relative_eq/ulps_eq must equal the conjunction of the scalar relation over corresponding components, probed at every position with a partner just inside and just outside the tolerance (absolute, relative, exactly max_ulps / max_ulps+1 steps), plus multi-component perturbations, reflexivity, symmetry and macro-vs-explicit default tolerances; is_finite with NaN/+-inf at every position; is_zero / is_identity / is_diagonal / is_symmetric / is_invertible / is_perpendicular with one element moved just inside/outside the type's default tolerance.",
    note="Trusted: the scalar approx impls for f32/f64. The matrix types' own default epsilon (1e-6) is used where the statement says 'ulps-comparison of the matrix'. Basis2/3 values are built through their Deserialize impl.",
    technique="property-based testing: per-position boundary probes against scalar-relation conjunction oracle", design="6/C18"),
+ "C19": dict(
+   text="Exploration. All 12 x 12 source/target primitive pairs for Vector1-4, Point1-3, Matrix2-4 and 12 x 2 (float targets) for Quaternion are instantiated; component values come from edge sets (MIN, MAX, 0, +-1, 2^k, 2^k+-1, NaN, +-inf, +-0.0, x.5 values at every integer range end, raw bit patterns) in three shapes (all edge / safe values with one edge component at a drawn position / all safe). cast() must be None iff some component's scalar NumCast fails, else bit-identical to the per-component scalar casts.",
+   note="Trusted: num_traits' scalar NumCast. All NaNs are identified when comparing.",
+   technique="property-based testing: differential oracle against per-component scalar NumCast over the full type-pair matrix", design="6/C19"),
+ "C20": dict(
+   text="Exploration. Every Serialize/Deserialize type (24 shapes x f32/f64, plus integer vectors/points) is round-tripped through serde_json::Value and through JSON text (float_roundtrip) with components from raw finite bit patterns (-0.0, subnormals, MIN_POSITIVE, MAX over-represented); the serialized Value must equal the documented field structure built by the harness; results are compared bit for bit with per-component scalar round trips through the same carrier. Decomposed: all 6 field orders must deserialise to the same value; each single omission (both remaining orders) and an unknown field at each of 4 positions must be Err (never Ok, never a panic).",
+   note="Trusted: serde / serde_json scalar impls. Finite values only. Field-order permutations are fed as text because serde_json's Value map is key-ordered.",
+   technique="property-based testing: round-trip oracle over two carriers + structural reference + enumerated field-order/omission/unknown-field cases", design="6/C20"),
 }
-BUILT = ["C01","C02","C03","C04","C05","C06","C07","C08","C09","C10","C11","C12","C13","C14","C15","C16","C17","C18"]
+BUILT = ["C01","C02","C03","C04","C05","C06","C07","C08","C09","C10","C11","C12","C13","C14","C15","C16","C17","C18","C19","C20"]
 CLAIMED = {k: v for k, v in ALL.items() if k in BUILT}
 PENDING = {}
 
@@ -117,7 +125,7 @@ def main():
         },
         "engines": [
             {"name": "vcheck", "path": "/verif/harness", "serves_properties": sorted(CLAIMED.keys()),
-             "kind_free_text": "Rust binary: proptest TestRunner over fixed-length u32 vectors decoded by construction (Hypothesis-style), exact scalar tiers Q/Fp plugged into cgmath generics, f64/f32 tiers with stated tolerances, replay files, evidence writer"},
+             "kind_free_text": "Rust workspace (core + 6 property crates + app), binary target/release/vcheck: proptest TestRunner over fixed-length u32 vectors decoded by construction (Hypothesis-style), exact scalar tiers Q/Fp plugged into cgmath generics, f64/f32 tiers with stated tolerances, replay files, evidence writer"},
         ],
         "checks": checks,
         "not_applicable": na,
